@@ -294,9 +294,9 @@ pub fn flate_decode(data: &[u8], params: &LZWFlateParams) -> Result<Vec<u8>> {
     unpredict(decoded, params)
 }
 
-/// Undo the PNG predictors (Predictor >= 10) of the LZW and Flate filters.
+/// Undo the TIFF (Predictor 2) and PNG (Predictor >= 10) predictors of the LZW and Flate filters.
 fn unpredict(decoded: Vec<u8>, params: &LZWFlateParams) -> Result<Vec<u8>> {
-    if params.predictor < 10 {
+    if params.predictor < 10 && params.predictor != 2 {
         return Ok(decoded);
     }
     let geometry = |n: i32| usize::try_from(n).ok().filter(|&n| n > 0);
@@ -310,6 +310,10 @@ fn unpredict(decoded: Vec<u8>, params: &LZWFlateParams) -> Result<Vec<u8>> {
         .and_then(|n| n.checked_mul(columns))
         .map(|n| (n + 7) / 8)
         .ok_or(PdfError::Invalid)?;
+
+    if params.predictor == 2 {
+        return untiff(decoded, n_components, bits, columns, stride);
+    }
 
     let inp = decoded; // input buffer
     if inp.len() <= stride {
@@ -348,6 +352,34 @@ fn unpredict(decoded: Vec<u8>, params: &LZWFlateParams) -> Result<Vec<u8>> {
         out_off += stride;
     }
     Ok(out)
+}
+/// Undo the TIFF predictor (Predictor 2): every sample is stored as the difference to the
+/// sample of the same component in the pixel to its left.
+fn untiff(mut data: Vec<u8>, n_components: usize, bits: usize, columns: usize, stride: usize) -> Result<Vec<u8>> {
+    for row in data.chunks_mut(stride) {
+        match bits {
+            8 => for i in n_components .. row.len() {
+                row[i] = row[i].wrapping_add(row[i - n_components]);
+            }
+            16 => for i in (2 * n_components .. row.len().saturating_sub(1)).step_by(2) {
+                let left = u16::from_be_bytes([row[i - 2 * n_components], row[i - 2 * n_components + 1]]);
+                let val = u16::from_be_bytes([row[i], row[i + 1]]).wrapping_add(left);
+                row[i .. i + 2].copy_from_slice(&val.to_be_bytes());
+            }
+            1 | 2 | 4 => {
+                let mask = (1u8 << bits) - 1;
+                let sample = |row: &[u8], n: usize| (row[n * bits / 8] >> (8 - bits - n * bits % 8)) & mask;
+                for n in n_components .. (n_components * columns).min(row.len() * 8 / bits) {
+                    let val = sample(row, n).wrapping_add(sample(row, n - n_components)) & mask;
+                    let shift = 8 - bits - n * bits % 8;
+                    let byte = &mut row[n * bits / 8];
+                    *byte = (*byte & !(mask << shift)) | (val << shift);
+                }
+            }
+            _ => bail!("unsupported BitsPerComponent {} for the TIFF predictor", bits)
+        }
+    }
+    Ok(data)
 }
 fn flate_encode(data: &[u8]) -> Vec<u8> {
     use libflate::zlib::Encoder;
